@@ -192,6 +192,21 @@ func BudgetScale() float64 {
 	return scale
 }
 
+// Overloaded reports whether the machine is, right now, oversubscribed beyond what Budget() compensates for (1-minute
+// load average above 6 per CPU). A clause that measures elapsed time must not be judged then: record it instead.
+func Overloaded() bool {
+	b, err := os.ReadFile("/proc/loadavg")
+	if err != nil {
+		return false
+	}
+	fs := strings.Fields(string(b))
+	if len(fs) == 0 {
+		return false
+	}
+	l, err := strconv.ParseFloat(fs[0], 64)
+	return err == nil && l/float64(runtime.NumCPU()) > 6
+}
+
 // Budget stretches a wall-clock allowance by BudgetScale().
 func Budget(d time.Duration) time.Duration { return time.Duration(float64(d) * BudgetScale()) }
 func (r *Run) Expired() bool               { return !r.deadline.IsZero() && time.Now().After(r.deadline) }
